@@ -10,7 +10,13 @@ export GOFLAGS=-mod=mod GOPROXY=off GOSUMDB=off GOTOOLCHAIN=local
 M=/tmp/vseed-$$
 git -C /repo worktree add -q --detach $M HEAD || exit 3
 trap 'git -C /repo worktree remove --force $M >/dev/null 2>&1' EXIT
-git -C $M apply "$D/patch.diff" || { echo "PATCH DOES NOT APPLY"; exit 3; }
+if ! git -C $M apply "$D/patch.diff" 2>/dev/null; then
+  # the site was touched by a later fix: fall back to the commit the change was made against
+  BASE=$(python3 -c "import json;print(json.load(open('$D/meta.json')).get('base_commit',''))")
+  [ -n "$BASE" ] || { echo "PATCH DOES NOT APPLY"; exit 3; }
+  echo "patch does not apply to HEAD, using base commit $BASE"
+  git -C $M checkout -q --detach $BASE && git -C $M apply "$D/patch.diff" || { echo "PATCH DOES NOT APPLY"; exit 3; }
+fi
 PROP=$(python3 -c "import json,sys;print(json.load(open('$D/meta.json'))['property'])")
 if [ "$MODE" = verify ]; then
   (cd $M && go build ./...) || { echo "DOES NOT COMPILE"; exit 3; }
